@@ -384,6 +384,235 @@ fn judge_bls_unsupported(src: &mut Src, st: &mut Stats) -> CheckResult {
     Ok(())
 }
 
+// ------------------------------------------------------------------------------------------------
+// independent flat encoder for `(program v (con <type> <value>))` with Data leaves: own bit
+// writer, CBOR of each Data leaf from pallas' own `Fragment` encoder (never through uplc's flat.rs)
+
+struct Bits {
+    out: Vec<u8>,
+    cur: u8,
+    used: u8,
+}
+
+impl Bits {
+    fn new() -> Self {
+        Bits { out: vec![], cur: 0, used: 0 }
+    }
+    fn bit(&mut self, b: bool) {
+        self.cur = (self.cur << 1) | b as u8;
+        self.used += 1;
+        if self.used == 8 {
+            self.out.push(self.cur);
+            self.cur = 0;
+            self.used = 0;
+        }
+    }
+    fn bits(&mut self, n: u8, v: u8) {
+        for i in (0..n).rev() {
+            self.bit((v >> i) & 1 == 1);
+        }
+    }
+    fn word(&mut self, mut v: usize) {
+        loop {
+            let group = (v & 0x7f) as u8;
+            v >>= 7;
+            self.bits(8, if v != 0 { group | 0x80 } else { group });
+            if v == 0 {
+                break;
+            }
+        }
+    }
+    /// zero bits then a one, ending on a byte boundary
+    fn filler(&mut self) {
+        while self.used != 7 {
+            self.bit(false);
+        }
+        self.bit(true);
+    }
+    fn bytestring(&mut self, b: &[u8]) {
+        self.filler();
+        for chunk in b.chunks(255) {
+            self.out.push(chunk.len() as u8);
+            self.out.extend_from_slice(chunk);
+        }
+        self.out.push(0);
+    }
+}
+
+fn type_tags(c: &Constant, out: &mut Vec<u8>) -> bool {
+    match c {
+        Constant::Data(_) => out.push(8),
+        Constant::ProtoList(t, _) => {
+            out.extend([7, 5]);
+            return type_tags_of(t, out);
+        }
+        Constant::ProtoPair(a, b, _, _) => {
+            out.extend([7, 7, 6]);
+            return type_tags_of(a, out) && type_tags_of(b, out);
+        }
+        _ => return false,
+    }
+    true
+}
+
+fn type_tags_of(t: &uplc::ast::Type, out: &mut Vec<u8>) -> bool {
+    use uplc::ast::Type;
+    match t {
+        Type::Data => out.push(8),
+        Type::List(e) => {
+            out.extend([7, 5]);
+            return type_tags_of(e, out);
+        }
+        Type::Pair(a, b) => {
+            out.extend([7, 7, 6]);
+            return type_tags_of(a, out) && type_tags_of(b, out);
+        }
+        _ => return false,
+    }
+    true
+}
+
+fn encode_value(c: &Constant, w: &mut Bits) -> bool {
+    use pallas_primitives::Fragment;
+    match c {
+        Constant::Data(d) => match d.encode_fragment() {
+            Ok(cbor) => w.bytestring(&cbor),
+            Err(_) => return false,
+        },
+        Constant::ProtoList(_, items) => {
+            for it in items {
+                w.bit(true);
+                if !encode_value(it, w) {
+                    return false;
+                }
+            }
+            w.bit(false);
+        }
+        Constant::ProtoPair(_, _, a, b) => return encode_value(a, w) && encode_value(b, w),
+        _ => return false,
+    }
+    true
+}
+
+fn reference_flat(version: (usize, usize, usize), c: &Constant) -> Option<Vec<u8>> {
+    let mut w = Bits::new();
+    w.word(version.0);
+    w.word(version.1);
+    w.word(version.2);
+    w.bits(4, 4); // term tag: constant
+    let mut tags = vec![];
+    if !type_tags(c, &mut tags) {
+        return None;
+    }
+    for t in tags {
+        w.bit(true);
+        w.bits(4, t);
+    }
+    w.bit(false);
+    if !encode_value(c, &mut w) {
+        return None;
+    }
+    w.filler();
+    Some(w.out)
+}
+
+/// Constants built from Data leaves in arbitrary (also non-canonical) CBOR encodings.
+fn gen_data_const(src: &mut Src, depth: usize) -> Constant {
+    let leaf = |src: &mut Src| {
+        let exotic = src.chance(3, 4);
+        Constant::Data(consts::gen_data_with(src, 3, true, exotic))
+    };
+    if depth == 0 {
+        return leaf(src);
+    }
+    match src.weighted(&[3, 4, 3]) {
+        0 => leaf(src),
+        1 => {
+            let first = gen_data_const(src, depth - 1);
+            let ty = crate::props::c15::type_of(&first);
+            let n = src.below(4);
+            let mut items = vec![];
+            if n > 0 {
+                items.push(first);
+            }
+            for _ in 1..n {
+                items.push(gen_data_const_of(src, &ty));
+            }
+            Constant::ProtoList(ty, items)
+        }
+        _ => {
+            let a = gen_data_const(src, depth - 1);
+            let b = gen_data_const(src, depth - 1);
+            Constant::ProtoPair(crate::props::c15::type_of(&a), crate::props::c15::type_of(&b), Rc::new(a), Rc::new(b))
+        }
+    }
+}
+
+fn gen_data_const_of(src: &mut Src, t: &uplc::ast::Type) -> Constant {
+    use uplc::ast::Type;
+    match t {
+        Type::List(e) => {
+            let n = src.below(3);
+            Constant::ProtoList((**e).clone(), (0..n).map(|_| gen_data_const_of(src, e)).collect())
+        }
+        Type::Pair(a, b) => Constant::ProtoPair((**a).clone(), (**b).clone(), Rc::new(gen_data_const_of(src, a)), Rc::new(gen_data_const_of(src, b))),
+        _ => {
+            let exotic = src.chance(3, 4);
+            Constant::Data(consts::gen_data_with(src, 3, true, exotic))
+        }
+    }
+}
+
+/// Encoding-sensitive rendering of a constant: CBOR bytes of every Data leaf.
+fn strict_show(c: &Constant) -> String {
+    use pallas_primitives::Fragment;
+    match c {
+        Constant::Data(d) => format!("data#{}", d.encode_fragment().map(hex::encode).unwrap_or_default()),
+        Constant::ProtoList(_, items) => format!("[{}]", items.iter().map(strict_show).collect::<Vec<_>>().join(",")),
+        Constant::ProtoPair(_, _, a, b) => format!("({},{})", strict_show(a), strict_show(b)),
+        other => format!("{other:?}"),
+    }
+}
+
+fn judge_nested_data(src: &mut Src, st: &mut Stats) -> CheckResult {
+    st.eval();
+    let c = gen_data_const(src, 3);
+    let version = *src.pick(&[(1usize, 1usize, 0usize), (1, 0, 0), (2, 300, 70000)]);
+    let nested = !matches!(c, Constant::Data(_));
+    let input = json!({"constant": strict_show(&c).chars().take(600).collect::<String>(), "version": format!("{version:?}")});
+    let Some(want) = reference_flat(version, &c) else {
+        st.class("skipped:reference-encoder");
+        return Ok(());
+    };
+    let p = Program { version, term: Term::<DeBruijn>::Constant(Rc::new(c.clone())) };
+    let got = no_panic(|| p.to_flat()).map_err(|pn| panic_failure("to_flat", pn, input.clone()))?.map_err(|e| fail("to_flat-error", &input, json!(e.to_string())))?;
+    if got != want {
+        return Err(fail("flat-bytes-differ-from-reference-encoding", &input, json!({"reference": hex::encode(&want), "actual": hex::encode(&got)})));
+    }
+    // bytes as another conforming encoder produced them: decode, compare leaves by their CBOR, re-encode
+    let back = no_panic(|| Program::<DeBruijn>::from_flat(&want)).map_err(|pn| panic_failure("from_flat", pn, input.clone()))?.map_err(|e| fail("from_flat-rejects-reference-bytes", &input, json!({"error": e.to_string(), "flat": hex::encode(&want)})))?;
+    match &back.term {
+        Term::Constant(c2) if strict_show(c2) == strict_show(&c) => {}
+        other => return Err(fail("decoded-constant-differs", &input, json!({"decoded": format!("{other:?}").chars().take(600).collect::<String>()}))),
+    }
+    let again = back.to_flat().map_err(|e| fail("to_flat-error", &input, json!(e.to_string())))?;
+    if again != want {
+        return Err(fail("decode-encode-changes-bytes:nested-data", &input, json!({"before": hex::encode(&want), "after": hex::encode(&again)})));
+    }
+    // hash stability through the blueprint form
+    let cbor = back.to_cbor().map_err(|e| fail("to_cbor-error", &input, json!(e.to_string())))?;
+    let cbor0 = p.to_cbor().map_err(|e| fail("to_cbor-error", &input, json!(e.to_string())))?;
+    if cbor != cbor0 {
+        return Err(fail("decode-encode-changes-cbor:nested-data", &input, json!({"before": hex::encode(&cbor0), "after": hex::encode(&cbor)})));
+    }
+    st.class(if nested { "nested-data:ok" } else { "toplevel-data:ok" });
+    if nested {
+        st.nontrivial(&want);
+        st.sample(|| json!({"constant": strict_show(&c).chars().take(300).collect::<String>(), "flat": hex::encode(&want).chars().take(160).collect::<String>()}));
+    }
+    Ok(())
+}
+
 pub fn run(cx: &mut Cx) -> String {
     if !crate::model::blake2b::self_test() {
         cx.note("harness BLAKE2b self-test failed");
@@ -392,6 +621,7 @@ pub fn run(cx: &mut Cx) -> String {
     let tier = cx.tier;
     cx.prop("binary-roundtrip", tier.of(300_000, 6_000_000), 500, judge_binary);
     cx.prop("cli-decode-encode", tier.of(150_000, 3_000_000), 400, judge_cli_path);
+    cx.prop("nested-data-constants", tier.of(150_000, 3_000_000), 400, judge_nested_data);
     cx.prop("bls-unsupported", tier.of(2_000, 20_000), 10, judge_bls_unsupported);
     RULE.to_string()
 }
